@@ -620,7 +620,7 @@ def debug_streams(ck, drv):
                     try:
                         di = m.get_debug()
                     except AttributeError as e:
-                        # known finding: ClassManager.get_debug_off seeks on the DEX object instead of its buffer
+                        # the defect repaired by fixes/C05-get-debug-off.diff: get_debug_off seeks on the DEX object, not its buffer
                         if "seek" not in str(e):
                             raise
                         if not accessor_broken:
@@ -649,8 +649,10 @@ def debug_streams(ck, drv):
                 if m[4] is not None and m[4].get("debug") is not None:
                     ref = (M.A.norm_str(c["name"]), M.A.norm_str(m[0]), M.A.norm_str(m[1]), tuple(M.A.norm_str(p) for p in m[2]))
                     off = b.layout["debug_info"].get(ref, 0)
-                    line, pnames = m[4]["debug"]
-                    exp[off] = "%d [%s] 0:" % (line, ",".join(str(-1 if p is None else b.string_idx(p)) for p in pnames))
+                    line, pnames = m[4]["debug"][:2]
+                    ops = m[4]["debug"][2] if len(m[4]["debug"]) > 2 else []
+                    exp[off] = "%d [%s] %s0:" % (line, ",".join(str(-1 if p is None else b.string_idx(p)) for p in pnames),
+                                                 "".join("%d:%s;" % (o[0], ",".join(str(v) for v in o[1:])) for o in ops))
         got = dict(p.split("=", 1) for p in rl[3:].split("|") if "=" in p) if rl.startswith("ok ") else {}
         for off, want in exp.items():
             ndbg += 1
@@ -778,9 +780,9 @@ def run(ck: Check):
                     "directory are only stored by the loader (never dereferenced at load time) and are reported as stored")
     ck.notes.append("debug_info_item: the loader keeps the section as raw bytes and parses a method's item on demand; decoder and "
                     "file-level access are modelled (decDebugInfo / getDebug, theorems debug_info_roundtrip / debug_info_from_file, "
-                    "streams debuginfo / dexdbg); on this tree the accessor EncodedMethod.get_debug() itself always raises "
-                    "AttributeError (known finding " + KEY_GET_DEBUG + ", repair offered in fixes/C05-get-debug-off.diff): the "
-                    "stream then constructs DebugInfoItem on the file buffer at debug_info_off, which is what the accessor is meant to do")
+                    "streams debuginfo / dexdbg). Model and oracle describe androguard WITH fixes/C05-get-debug-off.diff: without it "
+                    "EncodedMethod.get_debug() raises AttributeError on every file (finding " + KEY_GET_DEBUG + "), which the "
+                    "dexdbg stream reports as a failing input")
     ck.partial.append("call sites / method handles and hidden-api data are outside the model; the DebugInfoItemEmpty raw copy of the "
                       "debug section and the lazy getters of field / method / parameter annotations are not modelled")
     ck.assumptions += [
@@ -788,7 +790,7 @@ def run(ck: Check):
         "header validation (C09), debug info, call sites / method handles, hidden-api data are not in the model; static values and "
         "annotations are in the extended model (Model/DexFileX.lean, stream dexx), of which the base model is a proved refinement",
         "the regex helpers are called with re.escape(name)+r'\\Z' and modelled as name equality",
-        "model and oracle describe androguard with fixes/C05-lookup-helpers.diff applied",
+        "model and oracle describe androguard with fixes/C05-lookup-helpers.diff and fixes/C05-get-debug-off.diff applied",
     ]
 
 
